@@ -99,7 +99,7 @@ def _first_plain(seq):
 
 
 def h_search(eng, fn, nmax, depth, with_d, fixed_n=None, vary_bounds=True, builtins=True, fix=None, qshapes=None,
-             sym_draws=None):
+             sym_draws=None, inst_pool=False):
     sw = setup_world(eng, nmax, with_d, fixed_n, vary_bounds, fix)
     if sw is None:
         return [Ob('skip', True)]
@@ -111,9 +111,17 @@ def h_search(eng, fn, nmax, depth, with_d, fixed_n=None, vary_bounds=True, built
     if fix is not None and fix.get('declarations') and bool(eng.fresh_bool('pool_of_class_declarations')):
         # the generator hands class declarations (whose get_type() yields the type) instead of types
         pool = [_Decl(x) if not isinstance(x, tp.Builtin) else x for x in pool]
+    if inst_pool and bool(eng.fresh_bool('pool_with_instantiations')):
+        # Program.get_types() also hands in ready-made instantiations (of built-in constructors): entries that instantiate
+        # the same generic class as the query
+        pool = pool + [g.new([c]) for g in table.gens[:2] for c in table.classes]
+        eng.event('pool-with-instantiations')
     if fn == 'find_irrelevant_type':
         X = tp.TypeParameter('TV', bound=table.classes[0])
         qs = qs + [X, tp.TypeParameter('TU'), tp.TypeParameter('TW', bound=table.classes[-1])]
+        if builtins:
+            # built-in queries: the numeric tower is part of the hierarchy (Int <: Number)
+            qs = qs + [kt.Number, kt.Integer, tp.TypeParameter('TN', bound=kt.Number)]
     elif depth == 1:
         # queries mentioning a type variable of the enclosing declaration that happens to be named like the
         # parameter a generic class forwards to its supertype (variable capture)
@@ -204,6 +212,47 @@ def h_search(eng, fn, nmax, depth, with_d, fixed_n=None, vary_bounds=True, built
     return obs
 
 
+def h_builtin_queries(eng, lang):
+    """find_irrelevant_type on the language's own built-in types (the numeric tower is part of the hierarchy): query = any
+    non-generic built-in type or a type variable bounded by one; pool = all non-generic built-ins + two user classes"""
+    from src.ir import BUILTIN_FACTORIES
+    f = BUILTIN_FACTORIES[lang]
+    builtins = [t for t in f.get_non_nothing_types() if not t.is_type_constructor()]
+    A = tp.SimpleClassifier('Aa', [f.get_any_type()])
+    B = tp.SimpleClassifier('Bb', [A])
+    pool = builtins + [A, B]
+    qi = int(eng.fresh_int(0, len(builtins) - 1, 'query'))
+    as_bound = bool(eng.fresh_bool('query_is_a_type_variable_bounded_by_it'))
+    base = builtins[qi]
+    q = tp.TypeParameter('TQ', bound=base) if as_bound else base
+    w = World()
+    w.top = w.snap(f.get_any_type())
+    for t in pool:
+        w.snap(t)
+    with installed(eng, max_sym_draws=3) as rnd:
+        r = tu.find_irrelevant_type(q, list(pool), f)
+        log = list(rnd.log)
+    bt = w.snap(base)
+    case = dict(function='find_irrelevant_type', language=lang, query=str(q), result=str(r), rng=log[:6])
+    eng.event('searched')
+    obs = [Ob('done', True)]
+    if w.is_top(bt):
+        obs.append(Ob('irrelevant|none-for-top|%s' % lang, r is None or as_bound, case))
+    elif r is not None:
+        rt = w.snap(r)
+        # related by the declared hierarchy of the built-ins, or the same built-in class in primitive / boxed form
+        related = w.sub(rt, bt) or w.sub(bt, rt) or (rt[0] == 'B' and bt[0] == 'B' and rt[1] == bt[1])
+        prim = lambda t: bool(getattr(t, 'primitive', False))      # noqa: E731
+        qn = '%s%s' % (show(bt), '(primitive)' if prim(base) else '')
+        obs.append(Ob('irrelevant|unrelated-builtin|%s|query=%s,result=%s%s' % (lang, qn, show(rt), '(primitive)' if prim(r) else ''),
+                      not related, dict(case, result=show(rt), note='primitive types are identified with their boxes: a value of a '
+                                        'primitive numeric type is assignable to Number (boxing, then widening)')))
+        eng.event('irrelevant-found')
+    eng.notes['sample'] = case
+    eng.notes['observe'] = str(r)
+    return obs
+
+
 def _shape(w, x):
     if x is None:
         return '-'
@@ -251,13 +300,18 @@ def jobs(tier):
     plan.append(('find_irrelevant_type', dict(nmax=2, depth=1, with_d=False, fixed_n=2, vary_bounds=True, builtins=False,
                                               fix=dict(gvar=0, hvar=0, hsup=1, gsup=1, declarations=True), sym_draws=5,
                                               qshapes=['A', 'B', 'TV', 'TU', 'TW'])))
+    # ready-made instantiations in the pool, built-in queries
+    plan.append(('find_irrelevant_type', dict(nmax=2, depth=1, with_d=False, fixed_n=2, vary_bounds=False, builtins=True,
+                                              fix=dict(hvar=0, hsup=0), inst_pool=True, sym_draws=4,
+                                              qshapes=['A', 'B', 'G<A>', 'G<B>', 'H<A>', 'H<B>', 'Number', 'Int', 'TN', 'TV'])))
     plan.append(('find_subtypes', dict(nmax=2, depth=2, with_d=False, fixed_n=2, vary_bounds=False, builtins=False,
                                        fix=dict(gvar=2, hvar=0),
                                        qshapes=['H<in H<out B>>', 'G<H<in Any>>', 'H<in G<out A>>', 'H<out H<in B>>',
                                                 'G<in H<out A>>'])))
     for fn, prm in plan:
-        out.append(Job('%s-n%d-depth%d%s%s' % (fn, prm['nmax'], prm['depth'], '-D' if prm['with_d'] else '',
-                                              '-fix' + '_'.join(sorted(prm['fix'])) if prm.get('fix') else ''), h_search, dict(fn=fn, **prm),
+        out.append(Job('%s-n%d-depth%d%s%s%s' % (fn, prm['nmax'], prm['depth'], '-D' if prm['with_d'] else '',
+                                                '-fix' + '_'.join(sorted(prm['fix'])) if prm.get('fix') else '',
+                                                '-instpool' if prm.get('inst_pool') else ''), h_search, dict(fn=fn, **prm),
                        split_depth=6, functions=FUNCS, stubs=STUBS, budget_s=3000, crosscheck_every=500,
                        require_events=['searched'] + (['nontrivial-results'] if fn != 'find_irrelevant_type'
                                                      else ['irrelevant-found']),
@@ -268,10 +322,17 @@ def jobs(tier):
                                  '[:A]' if prm.get('vary_bounds', True) else '', '[:A]' if prm.get('vary_bounds', True) else '',
                                  ', optional D<Q[:A]> : G<..>' if fn == 'find_irrelevant_type' else '', prm['depth'],
                                  (' restricted to the query shapes %s' % prm['qshapes'] if prm.get('qshapes') else '')
+                                 + ('; the pool may also hold the instantiations G<c>, H<c> of every class c, and Number / Int with built-in queries' if prm.get('inst_pool') else '')
                                  + ('; RNG: every outcome of the first %d draws, later draws take the first candidate that is not a generic class (with a pool of class '
                                     'declarations the nesting of instantiations is not bounded by the code)' % prm['sym_draws']
                                     if prm.get('sym_draws') else '')),
                        outside=OUT))
+    for lang in (['java', 'kotlin'] if tier == 'quick' else ['java', 'kotlin', 'groovy', 'scala']):
+        out.append(Job('find_irrelevant_type-builtins-%s' % lang, h_builtin_queries, dict(lang=lang), split_depth=4,
+                       functions=FUNCS, stubs=STUBS, budget_s=900, crosscheck_every=200,
+                       require_events=['searched', 'irrelevant-found'],
+                       bounds='query: every non-generic built-in type of %s or a type variable bounded by it; pool: all non-generic '
+                              'built-ins + classes Aa, Bb : Aa; every RNG outcome of the first 3 draws' % lang, outside=OUT))
     return out
 
 
